@@ -56,6 +56,14 @@ class G:
         return draw(st.sampled_from(free))
 
 
+def _mentions(e, names):
+    if isinstance(e, list):
+        if e and e[0] in ("var", "assign", "opassign", "decl") and e[1] in names:
+            return True
+        return any(_mentions(x, names) for x in e)
+    return False
+
+
 def is_fn(s):
     return isinstance(s, tuple)
 
@@ -84,12 +92,22 @@ def gen_int(draw, g, d):
         opts += ["var", "var", "var"]
     if d > 0:
         opts += ["bin", "bin", "if", "len", "andor", "call", "seqexpr", "forsum", "index", "cmp", "trycatch", "switch", "iife"]
+    if d > 0 and getattr(g, "ops", None):
+        opts += ["chain", "chain"]
     k = draw(st.sampled_from(opts))
+    if k == "chain":
+        n = draw(st.integers(2, 4))
+        return ["chain", gen_int(draw, g, 0), [[draw(st.sampled_from(g.ops)), gen_int(draw, g, 0)] for _ in range(n)]]
     if k == "lit":
         return ["int", draw(st.integers(-3, 9))]
     if k == "var":
         return ["var", draw(st.sampled_from(ints))]
     if k == "bin":
+        if draw(st.integers(0, 7)) == 0:
+            # the same subtraction written as a prefix call, and unary minus
+            if draw(st.booleans()):
+                return ["call", ["var", "-"], [gen_int(draw, g, d - 1), gen_int(draw, g, d - 1)]]
+            return ["call", ["var", "-"], [gen_int(draw, g, d - 1)]]
         return ["bin", draw(st.sampled_from(["+", "-", "*"])), gen_int(draw, g, d - 1), gen_int(draw, g, d - 1)]
     if k == "cmp":
         return ["bin", draw(st.sampled_from(["<", "<=", "=="])), gen_int(draw, g, d - 1), gen_int(draw, g, d - 1)]
@@ -142,27 +160,39 @@ def gen_int(draw, g, d):
             b = ["bin", "+", ["var", "undeclared_q"], ["int", 1]]
         else:
             b = ["seq", [["print", [["int", 1]]], ["throw", ["int", draw(st.integers(0, 5))]], ["int", 9]], False]
+        literal = draw(st.integers(0, 5)) == 0
         g.push()
-        g.declare(x, "any")
-        if body in ("throwint", "throwdeep") and draw(st.booleans()):
+        if not literal:
+            g.declare(x, "any")
+        if not literal and body in ("throwint", "throwdeep") and draw(st.booleans()):
             h = ["bin", "+", ["var", x], gen_int(draw, g, d - 1)]
         else:
             h = gen_int(draw, g, d - 1)
         g.pop()
-        if draw(st.integers(0, 5)) == 0:
+        if literal:
             return ["try", b, ["plit", draw(st.integers(0, 5))], h]
         return ["try", b, ["pname", x], h]
     if k == "switch":
         scrut = gen_int(draw, g, d - 1)
         arms = []
+        if draw(st.integers(0, 3)) == 0:
+            scrut = ["list", [scrut]] if draw(st.booleans()) else scrut
         for _ in range(draw(st.integers(0, 2))):
             g.push()
-            arms.append([["plit", draw(st.integers(0, 4))], gen_int(draw, g, d - 1)])
+            if draw(st.integers(0, 2)) == 0:
+                # prefer a binder that shadows a visible variable: later arms may mention that variable again
+                vis = g.visible(lambda s_: s_ == "int")
+                y = draw(st.sampled_from((vis * 2 if vis else []) + NAMES))
+                g.declare(y, "int")
+                arms.append([["plist1", y], gen_int(draw, g, d - 1)])   # binds a name, matches one-element lists only
+            else:
+                arms.append([["plit", draw(st.integers(0, 4))], gen_int(draw, g, d - 1)])
             g.pop()
         x = draw(st.sampled_from(NAMES))
-        g.push()
-        g.declare(x, "int")
         last = draw(st.sampled_from(["pname", "pany", "pname"]))
+        g.push()
+        if last == "pname":
+            g.declare(x, "int")
         arms.append([[last, x] if last == "pname" else ["pany"], gen_int(draw, g, d - 1)])
         g.pop()
         return ["switch", scrut, arms]
@@ -262,6 +292,10 @@ def gen_lambda(draw, g, d, ret):
     # a parameter default is evaluated at call time in the DEFINING scope (observed: it cannot see earlier
     # parameters), so it is generated before the parameter scope is opened
     default_expr = gen_int(draw, g, 1) if shape == "default" else None
+    if default_expr is not None and _mentions(default_expr, set(names[:2])):
+        # a default that mentions a name which is also a parameter of the same lambda: which binding it
+        # means is not documented (observed: the outer one, looked up at call time) - not generated
+        default_expr = ["int", 1]
     g.push()
     saved = (g.loops, g.infunc)
     g.loops, g.infunc = 0, True
@@ -324,6 +358,16 @@ def gen_lambda(draw, g, d, ret):
 def gen_stmt(draw, g, d):
     ints = g.visible(lambda s: s == "int")
     lists = g.visible(lambda s: s == "list")
+    if getattr(g, "no_outer_assign", False):
+        # (C17) frozen code may not assign to the outermost scope's variables: only names whose innermost
+        # declaration is inside the generated lambda are assignment targets
+        def local(n):
+            for sc in reversed(g.scopes):
+                if n in sc:
+                    return sc is not g.scopes[0]
+            return False
+        ints = [n for n in ints if local(n)]
+        lists = [n for n in lists if local(n)]
     opts = ["decl_int", "decl_int", "decl_list", "print", "print"]
     if ints:
         opts += ["assign", "assign", "opassign"]
@@ -335,6 +379,8 @@ def gen_stmt(draw, g, d):
             opts += ["break", "break", "continue", "continue"]
         if g.infunc:
             opts += ["return"]
+    if getattr(g, "no_eval", False):
+        opts = [o for o in opts if o != "eval"]
     k = draw(st.sampled_from(opts))
     if k == "decl_int":
         x = g.fresh_here(draw)
@@ -461,9 +507,10 @@ def gen_stmt(draw, g, d):
         return ["eval", sub]
     if k == "shadow":
         # inner scope shadows an outer name, then the outer is read again
-        if not ints:
+        allints = g.visible(lambda s_: s_ == "int")
+        if not allints:
             return None
-        x = draw(st.sampled_from(ints))
+        x = draw(st.sampled_from(allints))
         y = draw(st.sampled_from(NAMES))
         return ["seq", [["for", [["iter", y, ["list", [["int", 1], ["int", 2]]]], ["decl", x, ["bin", "*", ["var", y], ["int", 10]]]], ["do", ["print", [["var", x]]]]],
                         ["print", [["var", x]]]], True]
@@ -505,8 +552,11 @@ def gen_stmt(draw, g, d):
 
 def gen_block(draw, g, d, may_throw=False):
     """a parenthesised sequence evaluated in the CURRENT scope (if / try body / eval open no scope)"""
-    ss = [x for x in [gen_stmt(draw, g, d) for _ in range(draw(st.integers(1, 3)))] if x is not None]
+    thr = None
     if may_throw and draw(st.booleans()):
-        pos = draw(st.integers(0, len(ss)))
-        ss.insert(pos, ["if", gen_int(draw, g, 0), ["throw", draw(st.sampled_from([["int", 5], ["str", "boom"], ["list", [["int", 1]]]]))], None])
+        # the condition is generated before the block's own declarations exist, so it may sit anywhere in it
+        thr = ["if", gen_int(draw, g, 0), ["throw", draw(st.sampled_from([["int", 5], ["str", "boom"], ["list", [["int", 1]]]]))], None]
+    ss = [x for x in [gen_stmt(draw, g, d) for _ in range(draw(st.integers(1, 3)))] if x is not None]
+    if thr is not None:
+        ss.insert(draw(st.integers(0, len(ss))), thr)
     return ["seq", ss or [["null"]], draw(st.booleans())]
